@@ -186,7 +186,7 @@ theorem tsame_refl (ts : TS) : TSame ts ts := ⟨rfl, rfl, rfl, fun _ _ _ h => h
 
 theorem crel_move' {s s1 : St} {t : Nat} {ts ts1 : TS} {c : CInfo}
     (kj : ∀ (u : Nat) (x : Job), s.jobs[u]? = some x →
-          ∃ x' : Job, s1.jobs[u]? = some x' ∧ jinfo x' = jinfo x ∧ (∀ q : Nat, x.seq = some q → x'.seq = some q))
+          ∃ x' : Job, s1.jobs[u]? = some x' ∧ x'.isNil = x.isNil ∧ (∀ q : Nat, x.seq = some q → x'.seq = some q))
     (hcx : s1.cx.contains t = s.cx.contains t)
     (hts : TSame ts ts1) (h : CRel s t ts c) : CRel s1 t ts1 c := by
   obtain ⟨e1, e2, e3, e4⟩ := hts
@@ -196,14 +196,14 @@ theorem crel_move' {s s1 : St} {t : Nat} {ts ts1 : TS} {c : CInfo}
     rw [e2] at hn
     obtain ⟨jb, q, a, b, c', d⟩ := h.snapWI n0 hn j hj
     obtain ⟨x', h1, hv, hq⟩ := kj j jb a
-    refine ⟨x', q, h1, hq q b, c', ?_⟩
-    have := congrArg JInfo.isNil hv
-    simp only [jinfo] at this
-    rw [this]; exact d
+    exact ⟨x', q, h1, hq q b, c', by rw [hv]; exact d⟩
 
 theorem crel_move {s s1 : St} {t : Nat} {ts ts1 : TS} {c : CInfo} (k : Kept s s1) (hcx : s1.cx = s.cx)
     (hts : TSame ts ts1) (h : CRel s t ts c) : CRel s1 t ts1 c :=
-  crel_move' k.job (by rw [hcx]) hts h
+  crel_move' (fun u x hx => by
+    obtain ⟨x', a, b, c⟩ := k.job u x hx
+    have := congrArg JInfo.isNil b
+    exact ⟨x', a, this, c⟩) (by rw [hcx]) hts h
 
 /-- an internal step: the monitor state is unchanged -/
 theorem rel_internal (s s1 : St) (ms : C18St) (hR : RelC18 s ms) (hi1 : Inv s1) (k : Kept s s1)
@@ -381,5 +381,658 @@ theorem rel_append (s s1 : St) (ms : C18St) (ts' : TS) (c' : CInfo) (hR : RelC18
 theorem pairOK_of (L q r : Int) (h : PairOK L q r) : pairOK L q r = true := by
   unfold pairOK
   exact decide_eq_true h
+
+
+theorem limit_some {s : St} {ms : C18St} (hR : RelC18 s ms) {t : Nat} {ts : TS} (ha : s.th[t]? = some ts) :
+    ms.limit = some s.limit := by
+  rw [hR.limit, created_of_th s hR.inv.toTInv t ts ha]; rfl
+
+theorem crel_finish {s : St} {t : Nat} {ts : TS} {c : CInfo} (h : CRel s t ts c) (th' : List TS) :
+    CRel { s with th := th' } t .finished { c with returned := true } := by
+  refine ⟨rfl, h.canc, by simp [TS.wiN0], by simp [TS.isWS], ?_, ?_⟩
+  · intro q r ch e; cases e
+  · intro n0 e; simp [TS.wiN0] at e
+
+/-- a call returns: `th[t] := finished`, the monitor marks it returned -/
+theorem sim_ret (s : St) (ms : C18St) (t : Nat) (ts : TS) (hR : RelC18 s ms) (ha : s.th[t]? = some ts)
+    (hi' : Inv { s with th := s.th.set t .finished }) :
+    ∃ c : CInfo, ms.calls[t]? = some c ∧
+      RelC18 { s with th := s.th.set t .finished } (ms.setCall t fun c => { c with returned := true }) := by
+  obtain ⟨c, hc⟩ := calls_get hR ha
+  refine ⟨c, hc, ?_⟩
+  rw [setCall_eq hc]
+  exact rel_set s _ ms t .finished _ hR hi' (kept_th s _ s.cx s.mail s.bc) rfl rfl rfl rfl
+    (crel_finish (hR.calls t ts c ha hc) _)
+
+theorem sim_retNew (s : St) (t : Nat) (s' : St) (ms : C18St) (hR : RelC18 s ms)
+    (hs : step s (.retNew t) = some s') :
+    ∃ ms', (monC18g false).step ms (.retNew t) = some ms' ∧ RelC18 s' ms' := by
+  have hi' := step_inv s _ s' hR.inv hs
+  simp only [step] at hs; split at hs <;> simp at hs; subst hs
+  rename_i ha
+  obtain ⟨c, hc, hrel⟩ := sim_ret s ms t _ hR ha hi'
+  exact ⟨_, rfl, hrel⟩
+
+theorem sim_retEnq (s : St) (t : Nat) (q r : Int) (s' : St) (ms : C18St) (hR : RelC18 s ms)
+    (hs : step s (.retEnq t q r) = some s') :
+    ∃ ms', (monC18g false).step ms (.retEnq t q r) = some ms' ∧ RelC18 s' ms' := by
+  have hi' := step_inv s _ s' hR.inv hs
+  simp only [step] at hs; split at hs <;> simp at hs
+  rename_i q' r' ha
+  obtain ⟨⟨rfl, rfl⟩, rfl⟩ := hs
+  obtain ⟨c, hc, hrel⟩ := sim_ret s ms t _ hR ha hi'
+  have hp : PairOK s.limit q r := hR.inv.th t _ ha
+  refine ⟨_, ?_, hrel⟩
+  simp [monC18g, limit_some hR ha, pairOK_of _ _ _ hp]
+
+theorem sim_retWS (s : St) (t : Nat) (r : Res) (s' : St) (ms : C18St) (hR : RelC18 s ms)
+    (hs : step s (.retWS t r) = some s') :
+    ∃ ms', (monC18g false).step ms (.retWS t r) = some ms' ∧ RelC18 s' ms' := by
+  have hi' := step_inv s _ s' hR.inv hs
+  simp only [step] at hs; split at hs <;> simp at hs
+  rename_i r' ha
+  obtain ⟨rfl, rfl⟩ := hs
+  obtain ⟨c, hc, hrel⟩ := sim_ret s ms t _ hR ha hi'
+  exact ⟨_, rfl, hrel⟩
+
+theorem isFinished_view {s : St} {ms : C18St} (hR : RelC18 s ms) (j : Nat) (jb : Job)
+    (hj : s.jobs[j]? = some jb) (hf : jb.st = .finished) (hn : jb.isNil = false) : ms.isFinished j = true := by
+  simp [C18St.isFinished, hR.jobs, hj, jinfo, jview, hf, hn]
+
+theorem sim_retWI (s : St) (t : Nat) (r : Res) (s' : St) (ms : C18St) (hR : RelC18 s ms)
+    (hs : step s (.retWI t r) = some s') :
+    ∃ ms', (monC18g false).step ms (.retWI t r) = some ms' ∧ RelC18 s' ms' := by
+  have hi' := step_inv s _ s' hR.inv hs
+  simp only [step] at hs; split at hs <;> simp at hs
+  rename_i r' n0 ha
+  obtain ⟨rfl, rfl⟩ := hs
+  obtain ⟨c, hc, hrel⟩ := sim_ret s ms t _ hR ha hi'
+  have hcr := hR.calls t _ c ha hc
+  have hsnap : r = .nil → c.snap.all ms.isFinished = true := by
+    intro hr; subst hr
+    rw [List.all_eq_true]
+    intro j hj
+    obtain ⟨jb, q, a, b, c', d⟩ := hcr.snapWI n0 rfl j hj
+    have hfin := (hR.inv.th t _ ha).2 rfl j jb q a b c'
+    exact isFinished_view hR j jb a hfin d
+  refine ⟨_, ?_, hrel⟩
+  simp only [monC18g, hc]
+  rw [if_pos hsnap]
+
+
+theorem cx_fresh {s : St} {ms : C18St} (hR : RelC18 s ms) : s.cx.contains s.th.length = false := by
+  cases h : s.cx.contains s.th.length
+  · rfl
+  · have := hR.cxlt _ h; omega
+
+/-- a job the monitor regards as settled (non-nil, its call returned) has had its enqueue step -/
+theorem settled_seq {s : St} {ms : C18St} (hR : RelC18 s ms) (p : JM → Bool) (j : Nat)
+    (hj : j ∈ ms.settled p) :
+    ∃ (jb : Job) (q : Nat), s.jobs[j]? = some jb ∧ jb.seq = some q ∧ q < s.nseq ∧ jb.isNil = false := by
+  simp only [C18St.settled, List.mem_filter, List.mem_range] at hj
+  obtain ⟨_, hcond⟩ := hj
+  rw [hR.jobs] at hcond
+  simp only [List.getElem?_map] at hcond
+  cases hjb : s.jobs[j]? with
+  | none => simp [hjb] at hcond
+  | some jb =>
+    simp only [hjb, Option.map_some, jinfo, Bool.and_eq_true, Bool.not_eq_true'] at hcond
+    obtain ⟨⟨hnil, _⟩, hret⟩ := hcond
+    -- the owner call has returned: its state is `finished`
+    simp only [C18St.callReturned] at hret
+    cases hc : ms.calls[jb.owner]? with
+    | none => simp [hc] at hret
+    | some c =>
+      simp only [hc] at hret
+      have hlt : jb.owner < s.th.length := by rw [← hR.clen]; exact lt_of_getElem? hc
+      have hts : s.th[jb.owner]? = some s.th[jb.owner] := List.getElem?_eq_getElem hlt
+      have hcr := hR.calls jb.owner _ c hts hc
+      have hfin : s.th[jb.owner].isFinished = true := by rw [← hcr.ret]; exact hret
+      have hnf : jb.st ≠ .fresh := by
+        intro hf
+        obtain ⟨js, h1, _⟩ := hR.inv.fresh j jb hjb hf
+        have heq : s.th[jb.owner] = .enqInv js := by
+          have h2 := h1; rw [hts] at h2; exact Option.some.inj h2
+        rw [heq] at hfin; simp [TS.isFinished] at hfin
+      obtain ⟨a, b⟩ := hR.inv.seqs j jb hjb
+      cases hsq : jb.seq with
+      | none => exact absurd (a.mpr hsq) hnf
+      | some q => exact ⟨jb, q, rfl, hsq, (b q hsq).1, hnil⟩
+
+theorem sim_invWI (s : St) (t : Nat) (s' : St) (ms : C18St) (hR : RelC18 s ms)
+    (hs : step s (.invWI t) = some s') :
+    ∃ ms', (monC18g false).step ms (.invWI t) = some ms' ∧ RelC18 s' ms' := by
+  have hi' := step_inv s _ s' hR.inv hs
+  simp only [step] at hs; split at hs <;> simp at hs; subst hs
+  rename_i hc
+  obtain ⟨hcr, rfl⟩ := hc
+  refine ⟨{ ms with calls := ms.calls ++ [{ kind := .wi, snap := ms.settled (· != .finished) }] },
+    by simp [monC18g, hR.clen], ?_⟩
+  refine rel_append s _ ms _ _ hR hi' (kept_th s _ s.cx s.mail s.bc) rfl rfl rfl rfl rfl ?_
+  refine ⟨rfl, (cx_fresh hR).symm, fun _ => rfl, by simp [TS.isWS], ?_, ?_⟩
+  · intro q r ch e; cases e
+  · intro n0 hn j hj
+    simp [TS.wiN0] at hn; subst hn
+    have hj' : j ∈ ms.settled (· != .finished) := hj
+    exact settled_seq hR _ j hj'
+
+theorem sim_invWS (s : St) (t : Nat) (nilcb : Bool) (s' : St) (ms : C18St) (hR : RelC18 s ms)
+    (hs : step s (.invWS t nilcb) = some s') :
+    ∃ ms', (monC18g false).step ms (.invWS t nilcb) = some ms' ∧ RelC18 s' ms' := by
+  have hi' := step_inv s _ s' hR.inv hs
+  simp only [step] at hs; split at hs <;> simp at hs; subst hs
+  rename_i hc
+  obtain ⟨hcr, rfl⟩ := hc
+  refine ⟨{ ms with calls := ms.calls ++ [{ kind := .ws }] }, by simp [monC18g, hR.clen], ?_⟩
+  refine rel_append s _ ms _ _ hR hi' (kept_th s _ s.cx s.mail s.bc) rfl rfl rfl rfl rfl ?_
+  refine ⟨by cases nilcb <;> rfl, (cx_fresh hR).symm, by cases nilcb <;> simp [TS.wiN0], fun _ => rfl, ?_, ?_⟩
+  · intro q r ch e; cases nilcb <;> cases e
+  · intro n0 hn; cases nilcb <;> simp [TS.wiN0] at hn
+
+theorem sim_cbWS (s : St) (t : Nat) (q r : Int) (a : Act) (s' : St) (ms : C18St) (hR : RelC18 s ms)
+    (hs : step s (.cbWS t q r a) = some s') :
+    ∃ ms', (monC18g false).step ms (.cbWS t q r a) = some ms' ∧ RelC18 s' ms' := by
+  have hi' := step_inv s _ s' hR.inv hs
+  simp only [step] at hs; split at hs <;> simp at hs
+  rename_i q' r' ch ha
+  obtain ⟨⟨hq, hr⟩, rfl⟩ := hs
+  subst hq hr
+  obtain ⟨c, hc⟩ := calls_get hR ha
+  have hp : PairOK s.limit q r := (hR.inv.th t _ ha).1
+  have hcr := hR.calls t _ c ha hc
+  refine ⟨ms.setCall t fun c => { c with last := some (q, r) }, ?_, ?_⟩
+  · simp [monC18g, limit_some hR ha, pairOK_of _ _ _ hp]
+  · rw [setCall_eq hc]
+    refine rel_set s _ ms t _ _ hR hi' (kept_th s _ s.cx s.mail s.bc) rfl rfl rfl rfl ?_
+    have hk := hcr.kws rfl
+    have hret : c.returned = false := by rw [hcr.ret]; rfl
+    cases a <;> dsimp only <;> refine ⟨hret, hcr.canc, by simp [TS.wiN0], fun _ => hk, ?_, ?_⟩
+    · intro q1 r1 ch1 e; cases e; rfl
+    · intro n0 e; simp [TS.wiN0] at e
+    · intro q1 r1 ch1 e; cases e
+    · intro n0 e; simp [TS.wiN0] at e
+    · intro q1 r1 ch1 e; cases e
+    · intro n0 e; simp [TS.wiN0] at e
+
+theorem sim_envErr (s : St) (t : Nat) (m : Msg) (s' : St) (ms : C18St) (hR : RelC18 s ms)
+    (hs : step s (.envErr t m) = some s') :
+    ∃ ms', (monC18g false).step ms (.envErr t m) = some ms' ∧ RelC18 s' ms' := by
+  have hi' := step_inv s _ s' hR.inv hs
+  simp only [step] at hs; split at hs <;> simp at hs; subst hs
+  exact ⟨ms, rfl, rel_internal s _ ms hR hi' (kept_th s s.th s.cx _ s.bc) rfl rfl rfl rfl
+    (fun t ts1 h => ⟨ts1, h, tsame_refl _⟩)⟩
+
+theorem sim_envCancel (s : St) (t : Nat) (s' : St) (ms : C18St) (hR : RelC18 s ms)
+    (hs : step s (.envCancel t) = some s') :
+    ∃ ms', (monC18g false).step ms (.envCancel t) = some ms' ∧ RelC18 s' ms' := by
+  have hi' := step_inv s _ s' hR.inv hs
+  simp only [step] at hs; split at hs <;> simp at hs; subst hs
+  rename_i hlt
+  have hts : s.th[t]? = some s.th[t] := List.getElem?_eq_getElem hlt
+  obtain ⟨c, hc⟩ := calls_get hR hts
+  refine ⟨ms.setCall t fun c => { c with cancelled := true }, rfl, ?_⟩
+  rw [setCall_eq hc]
+  refine ⟨hi', hR.limit, hR.jobs, by simp [hR.clen], ?_, ?_⟩
+  · intro t' ts c' h1 hc'
+    simp only at h1 hc'
+    rcases getElem?_set_cases _ _ _ _ _ hc' with ⟨e, rfl⟩ | ⟨hne, hc''⟩
+    · subst e
+      have h0 := hR.calls t' ts c h1 hc
+      exact ⟨h0.ret, by simp, h0.kwi, h0.kws, h0.last, h0.snapWI⟩
+    · have h0 := hR.calls t' ts c' h1 hc''
+      refine ⟨h0.ret, ?_, h0.kwi, h0.kws, h0.last, h0.snapWI⟩
+      rw [h0.canc]; simp [List.contains_cons, hne]
+  · intro t' ht'
+    simp [List.contains_cons] at ht'
+    rcases ht' with e | e
+    · subst e; exact hlt
+    · exact hR.cxlt t' (by simpa using e)
+
+
+theorem newJobs_view (t : Nat) (js : List (Nat × Bool)) : (newJobs t js).map jinfo = mkJobs t js := by
+  simp only [newJobs, mkJobs, List.map_map]
+  apply List.map_congr_left
+  intro p _
+  simp [jinfo, jview]
+
+theorem sim_invEnq (s : St) (t : Nat) (js : List (Nat × Bool)) (s' : St) (ms : C18St) (hR : RelC18 s ms)
+    (hs : step s (.invEnq t js) = some s') :
+    ∃ ms', (monC18g false).step ms (.invEnq t js) = some ms' ∧ RelC18 s' ms' := by
+  have hi' := step_inv s _ s' hR.inv hs
+  simp only [step] at hs; split at hs <;> simp at hs; subst hs
+  rename_i hc
+  obtain ⟨hcr, rfl, hids⟩ := hc
+  have hjl : ms.jobs.length = s.jobs.length := by rw [hR.jobs]; simp
+  have hlim : ms.limit = some s.limit := by rw [hR.limit, hcr]; rfl
+  refine ⟨{ ms with jobs := ms.jobs ++ mkJobs s.th.length js,
+                    calls := ms.calls ++ [{ kind := .enq, jobs := js.map (·.1),
+                                            snap := ms.settled (· == .unstarted) }] }, ?_, ?_⟩
+  · simp [monC18g, hlim, hR.clen, hjl, hids]
+  · have kj : ∀ (u : Nat) (x : Job), s.jobs[u]? = some x →
+        ∃ x' : Job, (s.jobs ++ newJobs s.th.length js)[u]? = some x' ∧ x'.isNil = x.isNil ∧
+          (∀ q : Nat, x.seq = some q → x'.seq = some q) := by
+      intro u x hx
+      exact ⟨x, by rw [List.getElem?_append_left (lt_of_getElem? hx)]; exact hx, rfl, fun _ h => h⟩
+    refine ⟨hi', hR.limit, ?_, by simp [hR.clen], ?_, ?_⟩
+    · simp only [List.map_append, newJobs_view, hR.jobs]
+    · intro t' ts c h1 hc'
+      simp only at h1 hc'
+      rcases getElem?_snoc_cases _ _ _ _ h1 with ⟨hlt, h1'⟩ | ⟨e, rfl⟩
+      · rw [List.getElem?_append_left (by rw [hR.clen]; exact hlt)] at hc'
+        exact crel_move' kj rfl (tsame_refl _) (hR.calls t' ts c h1' hc')
+      · subst e
+        rw [← hR.clen, List.getElem?_append_right (Nat.le_refl _)] at hc'
+        simp at hc'; subst hc'
+        refine ⟨rfl, ?_, by simp [TS.wiN0], by simp [TS.isWS], ?_, ?_⟩
+        · exact (cx_fresh hR).symm
+        · intro q r ch e; cases e
+        · intro n0 e; simp [TS.wiN0] at e
+    · intro t' ht'
+      have := hR.cxlt t' ht'
+      simp; omega
+
+theorem fold_push_cx (js : List Nat) (s : St) : (js.foldl pushInit s).cx = s.cx := by
+  induction js generalizing s with
+  | nil => rfl
+  | cons j rest ih => simp only [List.foldl_cons]; rw [ih]; rfl
+
+theorem update_cx (n : Nat) (s : St) : (update s n).cx = s.cx := by
+  induction n generalizing s with
+  | zero => rfl
+  | succ n ih =>
+    unfold update
+    split
+    · split
+      · rfl
+      · rw [ih]
+    · rfl
+
+
+theorem invNew_shape (s : St) (t : Nat) (L : Int) (js : List (Nat × Bool)) (s' : St) (hi : Inv s)
+    (hs : step s (.invNew t L js) = some s') :
+    s = {} ∧ t = 0 ∧ idsOK js 0 = true ∧ ∃ s3 : St, (s' = s3 ∨ s' = { s3 with bc := bcast s3.bc }) ∧
+      s3.created = true ∧ s3.limit = L ∧ s3.th = [.newDone] ∧ s3.cx = [] ∧
+      s3.jobs.map jinfo = mkJobs 0 js := by
+  simp only [step] at hs
+  split at hs
+  case isFalse => simp at hs
+  rename_i hc
+  obtain ⟨hcr, rfl, hids⟩ := hc
+  have hs0 := hi.cre hcr
+  subst hs0
+  refine ⟨rfl, rfl, hids, ?_⟩
+  have hids' : js.map (·.1) = List.range' 0 js.length := by simpa [idsOK] using hids
+  simp only [Option.some.injEq] at hs
+  have h1 : JInv0 { created := true, limit := L, jobs := newJobs 0 js, th := [.newDone] } := jinv0_start L 0 js
+  have hfr : ∀ j : Nat, j ∈ js.map (·.1) → ∃ jb : Job,
+      ({ created := true, limit := L, jobs := newJobs 0 js, th := [.newDone] } : St).jobs[j]? = some jb ∧ jb.st = .fresh := by
+    intro j hj
+    rw [hids'] at hj
+    obtain ⟨jb, a, b, _⟩ := newJobs_get [] 0 js j (by simpa using hj)
+    exact ⟨jb, by simpa using a, b⟩
+  have hnd : (js.map (·.1)).Nodup := by rw [hids']; exact List.nodup_range'
+  obtain ⟨h2, F2⟩ := fold_push (js.map (·.1)) _ h1 hfr hnd
+  have k2 := fold_push_kept (js.map (·.1)) _ h1 hfr hnd
+  obtain ⟨_, F3⟩ := update_inv _ _ h2 (Nat.le_refl _)
+  have k3 := update_kept ((js.map (·.1)).foldl pushInit
+      { created := true, limit := L, jobs := newJobs 0 js, th := [.newDone] }).queue.length _ h2
+  have hcx2 := fold_push_cx (js.map (·.1)) { created := true, limit := L, jobs := newJobs 0 js, th := [.newDone] }
+  have hcx3 := update_cx ((js.map (·.1)).foldl pushInit
+      { created := true, limit := L, jobs := newJobs 0 js, th := [.newDone] }).queue.length
+      ((js.map (·.1)).foldl pushInit { created := true, limit := L, jobs := newJobs 0 js, th := [.newDone] })
+  have hmap := kept_map (kept_trans k2 k3)
+  have hth3 := F3.th; rw [F2.th] at hth3
+  have hcr3 := F3.created; rw [F2.created] at hcr3
+  have hl3 := F3.limit; rw [F2.limit] at hl3
+  rw [hcx2] at hcx3
+  simp only [List.nil_append, List.length_nil] at hs
+  generalize hg2 : (js.map (·.1)).foldl pushInit
+      { created := true, limit := L, jobs := newJobs 0 js, th := [.newDone] } = s2 at *
+  generalize hg3 : update s2 s2.queue.length = s3 at *
+  refine ⟨s3, ?_, hcr3, hl3, hth3, hcx3, ?_⟩
+  · rw [← hs]; split
+    · right; rfl
+    · left; rfl
+  · rw [hmap]; exact newJobs_view 0 js
+
+theorem sim_invNew (s : St) (t : Nat) (L : Int) (js : List (Nat × Bool)) (s' : St) (ms : C18St) (hR : RelC18 s ms)
+    (hs : step s (.invNew t L js) = some s') :
+    ∃ ms', (monC18g false).step ms (.invNew t L js) = some ms' ∧ RelC18 s' ms' := by
+  have hi' := step_inv s _ s' hR.inv hs
+  obtain ⟨rfl, rfl, hids, s3, hs3, hcr, hl, hth, hcx, hmap⟩ := invNew_shape s t L js s' hR.inv hs
+  have hlim : ms.limit = none := by rw [hR.limit]; rfl
+  have hjobs : ms.jobs = [] := by rw [hR.jobs]; rfl
+  have hcalls : ms.calls = [] := List.eq_nil_of_length_eq_zero (by rw [hR.clen]; rfl)
+  refine ⟨{ limit := some L, jobs := ms.jobs ++ mkJobs 0 js,
+            calls := ms.calls ++ [{ kind := .new, jobs := js.map (·.1) }] }, ?_, ?_⟩
+  · simp [monC18g, hlim, hcalls, hjobs, hids]
+  · have key : s'.created = true ∧ s'.limit = L ∧ s'.th = [.newDone] ∧ s'.cx = [] ∧
+        s'.jobs.map jinfo = mkJobs 0 js := by
+      rcases hs3 with e | e <;> subst e <;> exact ⟨hcr, hl, hth, hcx, hmap⟩
+    obtain ⟨a, b, c, d, e⟩ := key
+    refine ⟨hi', by simp [a, b], by simp [hjobs, e], by simp [hcalls, c], ?_, by simp [d]⟩
+    intro t' ts c' h1 hc'
+    rw [c] at h1
+    simp only [hcalls, List.nil_append] at hc'
+    cases t' with
+    | zero =>
+      simp at h1 hc'; subst h1 hc'
+      refine ⟨rfl, by simp [d], by simp [TS.wiN0], by simp [TS.isWS], ?_, ?_⟩
+      · intro q r ch e; cases e
+      · intro n0 e; simp [TS.wiN0] at e
+    | succ n => simp at h1
+
+
+theorem activeIds_eq {s : St} {ms : C18St} (hj : ms.jobs = s.jobs.map jinfo) : ms.activeIds = activeJobs s := by
+  unfold C18St.activeIds activeJobs
+  rw [hj]
+  simp only [List.length_map]
+  apply List.filter_congr
+  intro j _
+  simp only [List.getElem?_map]
+  cases hjb : s.jobs[j]? with
+  | none => rfl
+  | some jb =>
+    simp only [Option.map_some, jinfo, jview]
+    cases hs : jb.st <;> try rfl
+    cases jb.isNil <;> rfl
+
+theorem active_le_limit_inv (s : St) (hi : Inv s) (hl : 0 < s.limit) :
+    ((activeJobs s).length : Int) ≤ s.limit := by
+  rw [activeJobs_length]
+  have h1 := hi.cntR
+  have h2 := hi.run
+  have h3 := hi.lim hl
+  have h4 : s.ws.countP WSt.isInJob ≤ s.ws.countP WSt.live :=
+    List.countP_mono_left (by intro x _ hx; cases x <;> simp [WSt.isInJob, WSt.live] at hx ⊢)
+  omega
+
+/-- the job table changes at `j` only, nil flag and sequence numbers kept; calls untouched -/
+theorem rel_jobs (s s1 : St) (ms : C18St) (j : Nat) (jb jb' : Job) (ji' : JInfo) (hR : RelC18 s ms) (hi1 : Inv s1)
+    (hj : s.jobs[j]? = some jb) (hjobs : s1.jobs = s.jobs.set j jb') (hnil : jb'.isNil = jb.isNil)
+    (hseq : jb'.seq = jb.seq) (hview : jinfo jb' = ji')
+    (hth : s1.th = s.th) (hcx : s1.cx = s.cx) (hcr : s1.created = s.created) (hlim : s1.limit = s.limit) :
+    RelC18 s1 { ms with jobs := ms.jobs.set j ji' } := by
+  refine ⟨hi1, by rw [hR.limit, hcr, hlim], ?_, by rw [hR.clen, hth], ?_, by rw [hcx, hth]; exact hR.cxlt⟩
+  · simp only [hjobs, hR.jobs, List.map_set, hview]
+  · intro t ts c h1 hc
+    rw [hth] at h1
+    refine crel_move' ?_ (by rw [hcx]) (tsame_refl _) (hR.calls t ts c h1 hc)
+    intro u x hx
+    rw [hjobs]
+    by_cases hu : j = u
+    · subst hu
+      rw [hj] at hx; cases hx
+      exact ⟨jb', getElem?_set_self' _ _ _ _ hj, hnil, fun q h => by rw [hseq]; exact h⟩
+    · exact ⟨x, by rw [getElem?_set_ne' _ _ _ _ hu]; exact hx, rfl, fun _ h => h⟩
+
+theorem sim_jobIn (s : St) (w j : Nat) (s' : St) (ms : C18St) (hR : RelC18 s ms)
+    (hs : step s (.jobIn w j) = some s') :
+    ∃ ms', (monC18g false).step ms (.jobIn j) = some ms' ∧ RelC18 s' ms' := by
+  have hi' := step_inv s _ s' hR.inv hs
+  simp only [step] at hs; split at hs <;> try simp at hs
+  rename_i j' jb hw hj
+  obtain ⟨⟨rfl, hnil⟩, rfl⟩ := hs
+  obtain ⟨jb0, hj0, hst⟩ := hR.inv.hasJ w j hw
+  rw [hj] at hj0; cases hj0
+  have hcr := created_of_ws s hR.inv.toTInv w _ hw
+  have hlim : ms.limit = some s.limit := by rw [hR.limit, hcr]; rfl
+  have hmj : ms.jobs[j]? = some (jinfo jb) := by rw [hR.jobs]; simp [hj]
+  have hrel := rel_jobs s { s with ws := s.ws.set w (.inJob j), jobs := startJob s.jobs j } ms j jb
+    { jb with st := .active, starts := jb.starts + 1 } { jinfo jb with st := .active } hR hi' hj
+    (startJob_eq hj) rfl rfl (by simp [jinfo, jview]) rfl rfl rfl rfl
+  refine ⟨_, ?_, hrel⟩
+  have hact : (0 : Int) < s.limit →
+      (({ ms with jobs := ms.jobs.set j { jinfo jb with st := .active } } : C18St).activeIds.length : Int) ≤ s.limit := by
+    intro hl
+    rw [activeIds_eq hrel.jobs]
+    exact active_le_limit_inv _ hi' hl
+  simp only [monC18g, hlim, hmj]
+  have h1 : (jinfo jb).isNil = false ∧ (jinfo jb).st = .unstarted := by
+    simp [jinfo, jview, hnil, hst]
+  rw [if_pos h1, if_pos ⟨hact, by intro h; cases h⟩]
+
+theorem sim_jobOut (s : St) (w j : Nat) (s' : St) (ms : C18St) (hR : RelC18 s ms)
+    (hs : step s (.jobOut w j) = some s') :
+    ∃ ms', (monC18g false).step ms (.jobOut j) = some ms' ∧ RelC18 s' ms' := by
+  have hi' := step_inv s _ s' hR.inv hs
+  simp only [step] at hs; split at hs <;> try simp at hs
+  rename_i j' hw
+  obtain ⟨rfl, rfl⟩ := hs
+  obtain ⟨jb, hj, hst, hnil⟩ := hR.inv.inJ w j hw
+  have hmj : ms.jobs[j]? = some (jinfo jb) := by rw [hR.jobs]; simp [hj]
+  have hrel := rel_jobs s { s with ws := s.ws.set w .afterJob, jobs := setJobSt s.jobs j .finished } ms j jb
+    { jb with st := .finished } { jinfo jb with st := .finished } hR hi' hj
+    (setJobSt_eq hj _) rfl rfl (by simp [jinfo, jview, hnil]) rfl rfl rfl rfl
+  refine ⟨_, ?_, hrel⟩
+  simp only [monC18g, hmj]
+  have h1 : (jinfo jb).st = .active := by simp [jinfo, jview, hst]
+  rw [if_pos h1]
+
+
+/-- at a quiescence point a job that the history has not seen start sits in the queue -/
+theorem quiescent_unstarted (s : St) (hi : Inv s) (hq : quiescent s = true) (j : Nat) (jb : Job)
+    (hj : s.jobs[j]? = some jb) (hw : jb.st.waiting = true) : s.queue ≠ [] := by
+  have hnf : jb.st ≠ .fresh := by
+    intro hf
+    obtain ⟨js, h1, _⟩ := hi.fresh j jb hj hf
+    have := quiescent_th s hq _ _ h1
+    simp [TS.quiet] at this
+  have hna : jb.st ≠ .assigned := by
+    have h0 : s.ws.countP WSt.isHasJob = 0 := by
+      rw [List.countP_eq_zero]
+      intro x hx hh
+      obtain ⟨w, hw'⟩ := List.getElem?_of_mem hx
+      rcases quiescent_ws s hq w x hw' with ⟨_, rfl⟩ | rfl <;> simp [WSt.isHasJob] at hh
+    exact no_assigned s hi.toJInv0 h0 j jb hj
+  have hqd : jb.st = .queued := by
+    cases hs : jb.st <;> simp_all [JS.waiting]
+  obtain ⟨a, b⟩ := hi.seqs j jb hj
+  cases hsq : jb.seq with
+  | none => exact absurd (a.mpr hsq) hnf
+  | some q =>
+    have := b q hsq
+    have h1 := this.2.mp hqd
+    have h2 := hi.nseq
+    intro e; rw [e] at h2; simp at h2; omega
+
+theorem sim_quiesce (s : St) (B A : List Nat) (s' : St) (ms : C18St) (hR : RelC18 s ms)
+    (hs : step s (.quiesce B A) = some s') :
+    ∃ ms', (monC18g false).step ms (.quiesce B A) = some ms' ∧ RelC18 s' ms' := by
+  simp only [step] at hs
+  split at hs
+  case isFalse => simp at hs
+  rename_i hcond
+  simp only [Option.some.injEq] at hs; subst hs
+  obtain ⟨hq, rfl, rfl⟩ := hcond
+  refine ⟨ms, ?_, hR⟩
+  have hi := hR.inv
+  cases hc : s.created with
+  | false =>
+    have hs0 := hi.cre hc
+    have hlim : ms.limit = none := by rw [hR.limit, hc]; rfl
+    subst hs0
+    simp only [monC18g, hlim]
+    rw [if_pos ⟨by rfl, by rfl⟩]
+  | true =>
+    have hlim : ms.limit = some s.limit := by rw [hR.limit, hc]; rfl
+    have hA : activeJobs s = ms.activeIds := (activeIds_eq hR.jobs).symm
+    have h2 : (0 : Int) < s.limit → ((activeJobs s).length : Int) ≤ s.limit := active_le_limit_inv s hi
+    have h3 : (List.range ms.jobs.length).all ms.started = false →
+        0 < s.limit ∧ ((activeJobs s).length : Int) = s.limit := by
+      intro hall
+      have : ∃ j, j ∈ List.range ms.jobs.length ∧ ms.started j = false := by
+        by_cases h : ∃ j, j ∈ List.range ms.jobs.length ∧ ms.started j = false
+        · exact h
+        · exfalso
+          have : (List.range ms.jobs.length).all ms.started = true := by
+            rw [List.all_eq_true]
+            intro j hj
+            cases hsj : ms.started j
+            · exact absurd ⟨j, hj, hsj⟩ h
+            · rfl
+          rw [this] at hall; cases hall
+      obtain ⟨j, hjr, hsj⟩ := this
+      simp only [C18St.started, hR.jobs, List.getElem?_map] at hsj
+      cases hjb : s.jobs[j]? with
+      | none => simp [hjb] at hsj
+      | some jb =>
+        simp only [hjb, Option.map_some, jinfo, Bool.or_eq_false_iff] at hsj
+        obtain ⟨hnil, hv⟩ := hsj
+        have hw : jb.st.waiting = true := by
+          simp only [jview] at hv
+          cases hst : jb.st <;> simp [hst, hnil, JS.waiting] at hv ⊢
+        have hne := quiescent_unstarted s hi hq j jb hjb hw
+        obtain ⟨a, b⟩ := quiescent_queue_full_aux s hi hq hne
+        exact ⟨a, by rw [activeJobs_length]; exact b⟩
+    have h4 : (pendingIds s).all (pendingOK ms (activeJobs s)) = true := by
+      rw [List.all_eq_true]
+      intro t ht
+      simp only [pendingIds, List.mem_filter, List.mem_range] at ht
+      obtain ⟨hlt, hp⟩ := ht
+      have hts : s.th[t]? = some s.th[t] := List.getElem?_eq_getElem hlt
+      rw [hts] at hp
+      obtain ⟨c, hcc⟩ := calls_get hR hts
+      have hcr := hR.calls t _ c hts hcc
+      have hqt := quiescent_th s hq t _ hts
+      obtain ⟨w1, w2⟩ := quiescent_waiters_aux s hi hq t
+      simp only [pendingOK, hcc]
+      cases hst : s.th[t] with
+      | wiParked n0 ch =>
+        rw [hst] at hcr hqt hts
+        simp only [TS.quiet, Bool.and_eq_true, Bool.not_eq_true'] at hqt
+        have hk := hcr.kwi rfl
+        have hr : c.returned = false := by rw [hcr.ret]; rfl
+        have hcn : c.cancelled = false := by rw [hcr.canc]; exact hqt.1.2
+        have hne := w1 n0 ch hts
+        have : (activeJobs s).isEmpty = false := by
+          cases hh : activeJobs s with
+          | nil => exact absurd hh hne
+          | cons a l => rfl
+        simp [hk, hr, hcn, this]
+      | wsParked q r ch =>
+        rw [hst] at hcr hqt hts
+        simp only [TS.quiet, Bool.and_eq_true, Bool.not_eq_true'] at hqt
+        have hk := hcr.kws rfl
+        have hl := hcr.last q r ch rfl
+        have hr : c.returned = false := by rw [hcr.ret]; rfl
+        have hcn : c.cancelled = false := by rw [hcr.canc]; exact hqt.2
+        have := (w2 q r ch hts).1
+        simp [hk, hr, hcn, hl, this]
+      | _ => rw [hst] at hp; simp [TS.parked] at hp
+    simp only [monC18g, hlim]
+    rw [if_pos ⟨hA, h2, h3, h4⟩]
+
+
+/-- the simulation step: internal events keep the relation, observable events are accepted by the
+monitor (without the enqueue-order clause) and re-establish it -/
+theorem sim_step (s : St) (e : Ev) (s' : St) (ms : C18St) (hR : RelC18 s ms)
+    (hs : model.step s e = some s') :
+    match model.obs e with
+    | none => RelC18 s' ms
+    | some o => ∃ ms', (monC18g false).step ms o = some ms' ∧ RelC18 s' ms' := by
+  have hs : step s e = some s' := hs
+  cases e with
+  | invNew t L js => exact sim_invNew s t L js s' ms hR hs
+  | retNew t => exact sim_retNew s t s' ms hR hs
+  | invEnq t js => exact sim_invEnq s t js s' ms hR hs
+  | enqCS t => exact sim_internal s _ s' ms hR hs rfl
+  | retEnq t q r => exact sim_retEnq s t q r s' ms hR hs
+  | jobIn w j => exact sim_jobIn s w j s' ms hR hs
+  | skipNil w => exact sim_internal s _ s' ms hR hs rfl
+  | jobOut w j => exact sim_jobOut s w j s' ms hR hs
+  | popCS w => exact sim_internal s _ s' ms hR hs rfl
+  | invWI t => exact sim_invWI s t s' ms hR hs
+  | wiCS t => exact sim_internal s _ s' ms hR hs rfl
+  | wiCtx t => exact sim_internal s _ s' ms hR hs rfl
+  | wiErr t => exact sim_internal s _ s' ms hR hs rfl
+  | retWI t r => exact sim_retWI s t r s' ms hR hs
+  | invWS t n => exact sim_invWS s t n s' ms hR hs
+  | wsCS t => exact sim_internal s _ s' ms hR hs rfl
+  | cbWS t q r a => exact sim_cbWS s t q r a s' ms hR hs
+  | wsCtx t => exact sim_internal s _ s' ms hR hs rfl
+  | retWS t r => exact sim_retWS s t r s' ms hR hs
+  | envCancel t => exact sim_envCancel s t s' ms hR hs
+  | envErr t m => exact sim_envErr s t m s' ms hR hs
+  | quiesce B A => exact sim_quiesce s B A s' ms hR hs
+
+
+theorem place_nseq (s : St) (j : Nat) : (place s j).nseq = s.nseq + 1 := by
+  unfold place; split <;> rfl
+
+theorem place_seq_self (s : St) (j : Nat) (jb : Job) (hj : s.jobs[j]? = some jb) :
+    ∃ x : Job, (place s j).jobs[j]? = some x ∧ x.seq = some s.nseq ∧ x.owner = jb.owner := by
+  unfold place
+  split
+  · exact ⟨{ jb with st := .assigned, seq := some s.nseq },
+      by simp only [setJob_eq hj]; exact getElem?_set_self' _ _ _ _ hj, rfl, rfl⟩
+  · exact ⟨{ jb with st := .queued, seq := some s.nseq },
+      by simp only [setJob_eq hj]; exact getElem?_set_self' _ _ _ _ hj, rfl, rfl⟩
+
+/-- the Enqueue loop numbers its jobs consecutively, in argument order -/
+theorem fold_place_pos (js : List Nat) (s : St) (hJ : JInv s)
+    (hfr : ∀ j : Nat, j ∈ js → ∃ jb : Job, s.jobs[j]? = some jb ∧ jb.st = .fresh) (hnd : js.Nodup) :
+    (js.foldl place s).nseq = s.nseq + js.length ∧
+    ∀ (k u : Nat), js[k]? = some u → ∃ x : Job, (js.foldl place s).jobs[u]? = some x ∧ x.seq = some (s.nseq + k) := by
+  induction js generalizing s with
+  | nil => exact ⟨rfl, by intro k u h; simp at h⟩
+  | cons j rest ih =>
+    obtain ⟨jb, hj, hf⟩ := hfr j (by simp)
+    obtain ⟨hJ1, F1⟩ := place_step s j jb hJ hj hf
+    rw [List.nodup_cons] at hnd
+    have hfr1 : ∀ u : Nat, u ∈ rest → ∃ x : Job, (place s j).jobs[u]? = some x ∧ x.st = .fresh := by
+      intro u hu
+      obtain ⟨x, hx, hxf⟩ := hfr u (by simp [hu])
+      have : u ∉ [j] := by intro e; simp at e; subst e; exact hnd.1 hu
+      exact ⟨x, by rw [F1.other u this]; exact hx, hxf⟩
+    obtain ⟨n2, p2⟩ := ih (place s j) hJ1 hfr1 hnd.2
+    obtain ⟨_, F2⟩ := fold_place rest (place s j) hJ1 hfr1 hnd.2
+    simp only [List.foldl_cons]
+    refine ⟨by rw [n2, place_nseq]; simp; omega, ?_⟩
+    intro k u hk
+    cases k with
+    | zero =>
+      simp at hk; subst hk
+      obtain ⟨x, hx, hxs, _⟩ := place_seq_self s j jb hj
+      exact ⟨x, by rw [F2.other j hnd.1]; exact hx, by simpa using hxs⟩
+    | succ k =>
+      simp at hk
+      obtain ⟨x, hx, hxs⟩ := p2 k u hk
+      exact ⟨x, hx, by rw [hxs, place_nseq]; congr 1; omega⟩
+
+theorem pushInit_nseq (s : St) (j : Nat) : (pushInit s j).nseq = s.nseq + 1 := rfl
+
+theorem fold_push_pos (js : List Nat) (s : St) (hJ : JInv0 s)
+    (hfr : ∀ j : Nat, j ∈ js → ∃ jb : Job, s.jobs[j]? = some jb ∧ jb.st = .fresh) (hnd : js.Nodup) :
+    ∀ (k u : Nat), js[k]? = some u → ∃ x : Job, (js.foldl pushInit s).jobs[u]? = some x ∧ x.seq = some (s.nseq + k) := by
+  induction js generalizing s with
+  | nil => intro k u h; simp at h
+  | cons j rest ih =>
+    obtain ⟨jb, hj, hf⟩ := hfr j (by simp)
+    have hJ1 : JInv0 (pushInit s j) := jinv0_enq s j jb hJ hj hf
+    have hother : ∀ u : Nat, u ≠ j → (pushInit s j).jobs[u]? = s.jobs[u]? := by
+      intro u hu
+      simp only [pushInit, setJob_eq hj]
+      exact getElem?_set_ne' _ _ _ _ (fun e => hu e.symm)
+    rw [List.nodup_cons] at hnd
+    have hfr1 : ∀ u : Nat, u ∈ rest → ∃ x : Job, (pushInit s j).jobs[u]? = some x ∧ x.st = .fresh := by
+      intro u hu
+      obtain ⟨x, hx, hxf⟩ := hfr u (by simp [hu])
+      have : u ≠ j := by intro e; subst e; exact hnd.1 hu
+      exact ⟨x, by rw [hother u this]; exact hx, hxf⟩
+    have p2 := ih (pushInit s j) hJ1 hfr1 hnd.2
+    obtain ⟨_, F2⟩ := fold_push rest (pushInit s j) hJ1 hfr1 hnd.2
+    simp only [List.foldl_cons]
+    intro k u hk
+    cases k with
+    | zero =>
+      simp at hk; subst hk
+      refine ⟨{ jb with st := .queued, seq := some s.nseq },
+        by rw [F2.other j hnd.1]; simp only [pushInit, setJob_eq hj]; exact getElem?_set_self' _ _ _ _ hj, ?_⟩
+      simp
+    | succ k =>
+      simp at hk
+      obtain ⟨x, hx, hxs⟩ := p2 k u hk
+      exact ⟨x, hx, by rw [hxs, pushInit_nseq]; congr 1; omega⟩
 
 end UtilModel.Conc
